@@ -589,6 +589,17 @@ package util
 //@   ensures err == nil && KeyIsFull(key) ==> n != nil                                                           #a-canonical-branch-does-not-vanish
 //@   ensures key == nil ==> err != nil                                                                            #nothing-below-a-nil-key
 
+// A branch left with one child and no value (tempNode) is replaced by that child, one nibble longer.
+//@ func (*MerklePatriciaTrie).liftOnlyChild returns (n, k, err)
+//@   props C01 C02
+//@   holds mpt.mutex W
+//@   mode wrap
+//@   requires node != nil && tempNode != nil && NumCh(tempNode) == 1 && !HasVal(tempNode.Value) && CollectorWF(mpt)              #collector-wf
+//@   requires forall i :: 0 <= i && i < 16 ==> (tempNode.Children[i] != nil ==> len(tempNode.Children[i]) == 32)
+//@   assigns mpt.missingNodeKeys, heap(OriginTracker.Origin), heap(OriginTracker.Version)
+//@   ensures err == nil ==> n != nil && Canon(n) && PathsWF(n)                                                    #returns-canonical-node
+//@   ensures err == nil ==> k != nil && len(k) == 32 && ((n is *FullNode) == KeyIsFull(k)) && (n is *LeafNode || n is *ExtensionNode)
+
 // The remaining path is exhausted at node: only a value stored exactly here may be removed.
 //@ func (*MerklePatriciaTrie).deleteAfterPathTraversal returns (n, k, err)
 //@   props C01 C02
